@@ -325,6 +325,16 @@ def run_case(case):
         r = sut(ctx2.add_kernels, kernels={}, extra_classes=list(root_cls), extra_compile_args=cbuild.FAST_FLAGS, extra_link_args=())
         if is_raised(r):
             return fail("add_kernels_failed", f"{r}", r.key, labels)
+        # the first root reached ONLY through the return type of a kernel
+        rc0 = root_cls[0]
+        ctx3 = xo.ContextCpu()
+        kn = "vf_ret_%d" % next(_counter)
+        src = f"{rc0.__name__} {kn}(int8_t* p){{ return ({rc0.__name__}) p; }}"
+        kern = xo.Kernel(args=[xo.Arg(xo.Int8, pointer=True, name="p")], ret=xo.Arg(rc0), c_name=kn)
+        r = sut(ctx3.add_kernels, sources=[src], kernels={kn: kern}, extra_compile_args=cbuild.FAST_FLAGS, extra_link_args=())
+        if is_raised(r):
+            return fail("add_kernels_failed", f"class reachable only through a kernel's return type: {r}", "return_type|" + r.key, labels)
+        labels.add("class_via_return_type")
     return Outcome(True, labels=sorted(labels), nontrivial=nontrivial)
 
 
